@@ -35,7 +35,7 @@ func init() {
 		modes: func(tier string, seed int64) []modeSpec {
 			n := 240
 			if tier == "thorough" {
-				n = 6000
+				n = 16000
 			}
 			return []modeSpec{
 				{name: "storm", n: 16, perChild: 1, timeout: 30 * time.Minute},
